@@ -38,7 +38,7 @@ initial_strategy = st.one_of(
     st.none(),
     st.fixed_dictionaries(
         {
-            "uri": st.one_of(st.just(b""), st.sampled_from([b"/", b"/ca", b"/updates.rss", b"/a/b.php"])),
+            "uri": st.one_of(st.just(b""), st.sampled_from([b"/", b"/ca", b"/updates.rss", b"/a/b.php", b"/api/v1/", b"/x/"])),
             "params": st.dictionaries(st.sampled_from([b"zz_unrelated", b"q9"]), S.arg_bytes, max_size=2),
             "headers": st.dictionaries(st.sampled_from([b"X-Unrelated", b"Accept-Zz"]), S.arg_bytes, max_size=2),
         }
@@ -58,6 +58,9 @@ def client_strategy():
             "pad_b64url": st.booleans(),
             # the initial request already holds (stale) values under the very names the program writes to
             "collide": st.booleans(),
+            # uri-append where the base URI ends with "/" and the appended data starts with "/" (plain concatenation: the
+            # request line carries "//")
+            "slash_junction": st.booleans(),
         }
     )
 
@@ -73,6 +76,10 @@ def client_execute(case, stats):
     fields = case["fields"]
     kinds = [a for n, a in steps if n == "BUILD"]
     ini = case["initial"]
+    if case.get("slash_junction") and ini and any(n == "URI_APPEND" for n, _ in steps):
+        at = next(i for i, (n, _) in enumerate(steps) if n == "URI_APPEND")
+        steps = steps[:at] + [("PREPEND", b"/v")] + steps[at:]
+        ini = dict(ini, uri=ini["uri"] if ini["uri"].endswith(b"/") else ini["uri"] + b"/")
     survivors = ini
     if ini and case.get("collide"):
         hk = [a for n, a in steps if n == "HEADER"] + [a.partition(b": ")[0] for n, a in steps if n in ("_HEADER", "_HOSTHEADER")]
